@@ -189,6 +189,12 @@ func c11Worker(args []string) {
 					pat := fmt.Sprintf("^w%d_%d[a-z]*%d$", g, k%50, rr.Intn(1000))
 					word := fmt.Sprintf("w%d_%dabc%s", g, k%50, pat[strings.LastIndex(pat, "*")+1:len(pat)-1])
 					script := fmt.Sprintf("c = c + 1; if (Word ~= /%s/ && match(Word, /^w/) && replace(Word, /[0-9]+/, \"\") !~ /[0-9]/) { return c; } return 0 - c;", pat)
+					if k%5 == 4 {
+						// a pattern that fails to compile at run time (distinct per goroutine
+						// and round): match() reports false, the script still counts
+						bad := fmt.Sprintf("(w%d_%d_%d[", g, k, rr.Intn(1000000))
+						script = fmt.Sprintf("c = c + 1; if (match(Word, \"%s\") || replace(Word, \"%s\", \"x\") == true) { return 0 - c; } return c;", bad, bad)
+					}
 					e := evalfilter.New(script)
 					e.SetVariable("c", &object.Integer{Value: 0})
 					if err := e.Prepare(); err != nil {
